@@ -189,11 +189,11 @@ pub fn towers(d: usize) -> Vec<R> {
     out
 }
 
-/// wide terms: every variable-arity constructor with 9 and 17 components (beyond any small
+/// wide terms: every variable-arity constructor with 9, 17 and 40 components (beyond any small
 /// fixed-size shortcut), images with the placeholder first / in the middle / last
 pub fn wide_terms() -> Vec<R> {
     let mut out = vec![];
-    for n in [9usize, 17] {
+    for n in [9usize, 17, 40] {
         let elems: Vec<R> = (0..n).map(|i| if i % 4 == 3 { R::atom(Tag::IVar, &format!("v{i}")) } else { R::word(&format!("w{i}")) }).collect();
         for &tag in COMPOUND_TAGS.iter() {
             match tag.shape() {
